@@ -2714,3 +2714,386 @@ func ruleIterProgress(r *Run) {
 	}
 	r.Min("iterator_loops", n, 1)
 }
+
+// ---------------------------------------------------------------------------
+// R-ATTR-PRESENCE (C03): reader and writers must agree on whether an element without its
+// attribute exists.  Where the reader keeps a child element T only when its attribute A is
+// non-empty (`if val != "" { props.X = &T{A: val} }`), no code of the library may build a T whose
+// A is left empty: such an element is written (<w:vMerge/>) and silently dropped on the next Open.
+// Two sites that each look fine alone; decided from the regions of `attr != ""` tests in the reader
+// and the composite literals everywhere else.
+// ---------------------------------------------------------------------------
+
+func ruleAttrPresence(r *Run) {
+	p := r.P
+	m := buildReaderModel(p)
+	type req struct {
+		T    *types.Named
+		A    int // field index in T
+		pos  token.Pos
+		inFn *ssa.Function
+	}
+	var reqs []req
+	seen := map[string]bool{}
+	for _, f := range m.Funcs {
+		for _, c := range strCompares(f) {
+			if c.Const != "" {
+				continue
+			}
+			bo := c.If.Cond.(*ssa.BinOp)
+			neq := c.Block.Succs[1]
+			if bo.Op == token.NEQ {
+				neq = c.Block.Succs[0]
+			}
+			if len(neq.Preds) != 1 {
+				continue
+			}
+			region := domSubtree(neq)
+			for b := range region {
+				for _, in := range b.Instrs {
+					st, ok := in.(*ssa.Store)
+					if !ok {
+						continue
+					}
+					al, ok := st.Val.(*ssa.Alloc)
+					if !ok || !region[al.Block()] {
+						continue
+					}
+					fv, _ := fieldOfAddr(st.Addr)
+					if fv == nil {
+						continue
+					}
+					tn, tst := structOf(al.Type())
+					if tn == nil || tst == nil || al.Referrers() == nil {
+						continue
+					}
+					// which field of the new T receives the tested value?
+					for _, u := range *al.Referrers() {
+						fa, ok := u.(*ssa.FieldAddr)
+						if !ok || fa.Referrers() == nil {
+							continue
+						}
+						for _, u2 := range *fa.Referrers() {
+							if s2, ok := u2.(*ssa.Store); ok && s2.Addr == ssa.Value(fa) && s2.Val == c.Operand {
+								k := tn.Obj().Name() + "." + tst.Field(fa.Field).Name()
+								if !seen[k] {
+									seen[k] = true
+									reqs = append(reqs, req{tn, fa.Field, st.Pos(), f})
+								}
+							}
+						}
+					}
+				}
+			}
+		}
+	}
+	r.Min("reader_presence_conditions", len(reqs), 3)
+	for _, q := range reqs {
+		tst := q.T.Underlying().(*types.Struct)
+		aname := tst.Field(q.A).Name()
+		n := 0
+		for _, fn := range p.ModFuncs() {
+			if m.IsReader[topLevel(fn)] {
+				continue
+			}
+			allInstrs(fn, func(in ssa.Instruction) {
+				al, ok := in.(*ssa.Alloc)
+				if !ok {
+					return
+				}
+				tn, _ := structOf(al.Type())
+				if tn != q.T {
+					return
+				}
+				if _, isArr := derefType(al.Type()).Underlying().(*types.Array); isArr {
+					return
+				}
+				// a literal (fields stored in the same function); locals that merely receive a copy are skipped
+				stored, whole := "", false
+				if al.Referrers() != nil {
+					for _, u := range *al.Referrers() {
+						switch x := u.(type) {
+						case *ssa.FieldAddr:
+							if x.Field != q.A || x.Referrers() == nil {
+								continue
+							}
+							for _, u2 := range *x.Referrers() {
+								if s2, ok := u2.(*ssa.Store); ok && s2.Addr == ssa.Value(x) {
+									if cs, isC := constString(s2.Val); isC {
+										if cs != "" {
+											stored = "const"
+										} else if stored == "" {
+											stored = "empty"
+										}
+									} else {
+										stored = "value"
+									}
+								}
+							}
+						case *ssa.Store:
+							if x.Addr == ssa.Value(al) {
+								whole = true // `*t = someStruct`: a copy, not a construction
+							}
+						}
+					}
+				}
+				if whole {
+					return
+				}
+				n++
+				ok2 := stored == "const" || stored == "value"
+				if ok2 {
+					return
+				}
+				r.Check("attr-presence", fmt.Sprintf("%s.%s:%s", q.T.Obj().Name(), aname, shortName(topLevel(fn))), al.Pos(), false,
+					fmt.Sprintf("%s builds a %s whose %s is empty; the reader (%s, %s) keeps a %s only when that attribute is non-empty, so the element is written on save and silently dropped on the next open", shortName(topLevel(fn)), q.T.Obj().Name(), aname, shortName(q.inFn), p.pos(q.pos), q.T.Obj().Name()))
+			})
+		}
+		r.Check("attr-presence", q.T.Obj().Name()+"."+aname, q.pos, true, fmt.Sprintf("reader keeps %s only for a non-empty %s; %d construction site(s) outside the reader examined", q.T.Obj().Name(), aname, n))
+	}
+}
+
+// ---------------------------------------------------------------------------
+// R-READER-INPUT-ONLY (C03): whether the reader keeps what it has just read may depend on the
+// element itself (its attributes, its text) — never on other state of the Document under
+// construction (the style registry, the part map, counters): at parse time that state is whatever
+// happens to have been loaded so far, so a value the library wrote itself can be dropped on Open
+// ("keep w:pStyle only if the style manager already knows the style").  Decided on the branch
+// conditions inside the element-case regions of the reader functions.
+// ---------------------------------------------------------------------------
+
+func ruleReaderInputOnly(r *Run) {
+	p := r.P
+	m := buildReaderModel(p)
+	sl := newSlicer(p)
+	sl.dataOnly = true
+	// the parsed input itself (tokens of the decoder, which was built over the part being read) is a leaf
+	sl.stop = func(v ssa.Value) bool {
+		if c, ok := v.(*ssa.Call); ok && calleeName(c) == decoderToken {
+			return true
+		}
+		return typeIs(v.Type(), xmlPkg, "Decoder")
+	}
+	docT := p.Named(pkgDoc, "Document")
+	if docT == nil {
+		r.Unresolved("document.Document")
+		return
+	}
+	n := 0
+	for _, f := range m.Funcs {
+		inCase := map[*ssa.BasicBlock]bool{}
+		for _, c := range m.ElemCmps[f] {
+			for b := range c.Region {
+				inCase[b] = true
+			}
+		}
+		bad := ""
+		var badPos token.Pos
+		for _, b := range f.Blocks {
+			if !inCase[b] || len(b.Instrs) == 0 {
+				continue
+			}
+			iff, ok := b.Instrs[len(b.Instrs)-1].(*ssa.If)
+			if !ok {
+				continue
+			}
+			n++
+			res := sl.Slice(iff.Cond)
+			for v := range res.Vals {
+				fa, ok := v.(*ssa.FieldAddr)
+				if !ok {
+					continue
+				}
+				pt, ok := fa.X.Type().Underlying().(*types.Pointer)
+				if !ok || !types.Identical(pt.Elem(), docT) {
+					continue
+				}
+				fld := docT.Underlying().(*types.Struct).Field(fa.Field).Name()
+				if bad == "" {
+					bad = fmt.Sprintf("a branch inside an element case of %s depends on Document.%s", shortName(f), fld)
+					badPos = iff.Pos()
+					if badPos == token.NoPos {
+						badPos = b.Instrs[0].Pos()
+					}
+				}
+			}
+		}
+		if bad != "" {
+			r.Check("reader-input-only", shortName(f), badPos, false, bad+": what is kept from the file then depends on what else has been loaded so far, not on the element — content the library wrote itself can be dropped on open")
+		} else {
+			r.Check("reader-input-only", shortName(f), f.Pos(), true, "conditions inside element cases depend on the parsed input only")
+		}
+	}
+	r.Min("reader_case_branches", n, 60)
+}
+
+// ---------------------------------------------------------------------------
+// R-REL-SERIALISE-ALL (C04, C02): the relationship parts written on save contain EVERY relationship
+// of the in-memory lists — no de-duplication, filtering or in-place replacement while serialising
+// (a relationship dropped here leaves the body reference that uses its id dangling; "every
+// relationship keeps its id, type, target").  Decided with the collects-all analysis on the slice
+// that is marshalled into word/_rels/document.xml.rels and _rels/.rels.
+// ---------------------------------------------------------------------------
+
+func ruleRelSerialiseAll(r *Run) {
+	p := r.P
+	n := 0
+	for _, ps := range partStoresCached(p) {
+		k, isC := ps.Key.isConst()
+		if !isC || (k != "word/_rels/document.xml.rels" && k != "_rels/.rels") {
+			continue
+		}
+		fn := ps.Fn
+		// the value handed to the marshaller
+		res := newSlicer(p).Slice(ps.MU.Value)
+		var marshalled []ssa.Value
+		for v := range res.Vals {
+			if c, ok := v.(*ssa.Call); ok {
+				switch calleeName(c) {
+				case "encoding/xml.Marshal", "encoding/xml.MarshalIndent":
+					marshalled = append(marshalled, c.Call.Args[0])
+				case "(*encoding/xml.Encoder).Encode":
+					marshalled = append(marshalled, c.Call.Args[1])
+				}
+			}
+		}
+		for _, mv := range marshalled {
+			if mi, ok := mv.(*ssa.MakeInterface); ok {
+				mv = mi.X
+			}
+			n++
+			key := shortName(fn) + ":" + k
+			// the registry object itself (d.relationships): nothing can be missing
+			if ch, _ := addrChain(mv); len(ch) > 0 {
+				r.Check("rel-serialise-all", key, ps.MU.Pos(), true, "the in-memory relationship list itself is marshalled")
+				continue
+			}
+			al, ok := stripLoads(mv).(*ssa.Alloc)
+			if !ok {
+				r.Undecided("rel-serialise-all", key, ps.MU.Pos(), "the marshalled value is neither the registry nor a struct built here")
+				continue
+			}
+			var listVals []ssa.Value
+			allInstrs(fn, func(in ssa.Instruction) {
+				st, ok := in.(*ssa.Store)
+				if !ok {
+					return
+				}
+				fv, base := fieldOfAddr(st.Addr)
+				if fv == nil || stripLoads(base) != ssa.Value(al) {
+					return
+				}
+				if sliceOfPtrTo(fv.Type(), pkgDoc, "Relationship") {
+					listVals = append(listVals, st.Val)
+				}
+			})
+			ok2, why := false, "no relationship list is stored into the marshalled struct"
+			c := &collector{p: p}
+			for _, lv := range listVals {
+				if o, w := c.containsAll(lv); o {
+					ok2, why = true, w
+				} else {
+					why = w
+				}
+			}
+			r.Check("rel-serialise-all", key, ps.MU.Pos(), ok2,
+				fmt.Sprintf("%s must write every relationship of the in-memory list into %s: %s", shortName(fn), k, map[bool]string{true: "complete (" + why + ")", false: "NOT shown complete — " + why + "; a relationship left out (merged with another one, filtered, overwritten in place) loses its id and every reference that uses it dangles in the saved package"}[ok2]))
+		}
+	}
+	r.Min("relationship_parts_serialised", n, 2)
+}
+
+// ---------------------------------------------------------------------------
+// R-MARSHAL-ATTR-UNIQUE (C06, C01, C03): a hand-written marshaller that adds attributes to the start
+// element it passes to EncodeElement(v, start) must not add one that v's own struct tags already
+// emit (xml:space on w:t): encoding/xml writes both, and an element with a duplicated attribute
+// is not well-formed XML.  Constant attribute names appended to StartElement.Attr in the function vs
+// the `,attr` tags of the encoded struct type.
+// ---------------------------------------------------------------------------
+
+func ruleMarshalAttrUnique(r *Run) {
+	p := r.P
+	n := 0
+	for _, fn := range p.ModFuncs() {
+		var calls []*ssa.Call
+		allInstrs(fn, func(in ssa.Instruction) {
+			if c, ok := in.(*ssa.Call); ok && calleeName(c) == "(*encoding/xml.Encoder).EncodeElement" {
+				calls = append(calls, c)
+			}
+		})
+		if len(calls) == 0 {
+			continue
+		}
+		// constant names given to xml.Attr literals in this function, per StartElement variable they
+		// are appended to
+		attrsOf := map[ssa.Value]map[string]bool{}
+		allInstrs(fn, func(in ssa.Instruction) {
+			st, ok := in.(*ssa.Store)
+			if !ok {
+				return
+			}
+			s, isC := constString(st.Val)
+			if !isC {
+				return
+			}
+			ch, _ := addrChain(st.Addr)
+			if len(ch) < 2 || ch[len(ch)-1] == nil || ch[len(ch)-1].Name() != "Local" {
+				return
+			}
+			base := baseBefore(st.Addr, 2)
+			if base == nil || !typeIs(derefType(base.Type()), xmlPkg, "Attr") {
+				return
+			}
+			al := allocBase(base)
+			if al == nil {
+				return
+			}
+			for use := range forwardFlow(al, nil) {
+				st2, ok := use.(*ssa.Store)
+				if !ok {
+					continue
+				}
+				if fa, ok := st2.Addr.(*ssa.FieldAddr); ok {
+					if sa := allocBase(fa.X); sa != nil && typeIs(derefType(sa.Type()), xmlPkg, "StartElement") {
+						if attrsOf[ssa.Value(sa)] == nil {
+							attrsOf[ssa.Value(sa)] = map[string]bool{}
+						}
+						attrsOf[ssa.Value(sa)][s] = true
+					}
+				}
+			}
+		})
+		for _, c := range calls {
+			v := c.Call.Args[1]
+			if mi, ok := v.(*ssa.MakeInterface); ok {
+				v = mi.X
+			}
+			tn, tst := structOf(v.Type())
+			if tn == nil || tst == nil || tn.Obj().Pkg() == nil || !strings.HasPrefix(tn.Obj().Pkg().Path(), modPath) {
+				continue
+			}
+			n++
+			dup := ""
+			for i := 0; i < tst.NumFields(); i++ {
+				t := parseXMLTag(tst.Tag(i))
+				if !t.Attr {
+					continue
+				}
+				var startAl ssa.Value
+				if ld, ok := c.Call.Args[2].(*ssa.UnOp); ok && ld.Op == token.MUL {
+					if sa := allocBase(ld.X); sa != nil {
+						startAl = ssa.Value(sa)
+					}
+				}
+				for an := range attrsOf[startAl] {
+					if an == t.Name || an == t.Local {
+						dup = an
+					}
+				}
+			}
+			r.Check("marshal-attr-unique", shortName(fn)+":"+tn.Obj().Name(), c.Pos(), dup == "",
+				fmt.Sprintf("%s encodes a %s with a start element it builds itself; it adds attribute %q by hand although a field of %s is tagged to emit that attribute too: the element is written with the attribute twice and the part is not well-formed XML", shortName(fn), tn.Obj().Name(), dup, tn.Obj().Name()))
+		}
+	}
+	r.Min("encode_element_calls_with_module_structs", n, 5)
+}
